@@ -196,24 +196,44 @@ class PeerHarness:
         that stay pending). '''
         wld = self.wld
         count = 0
+        spin = 0
         try:
             while count < max_steps:
                 count += 1
                 if wld.steps >= wld.max_steps:
                     wld.capped = 'steps'
                     return
-                if wld._any_ready():
-                    wld.step()
-                    continue
-                nxt = wld._peek_next()
-                if nxt is None or nxt > wld.now + window_us:
-                    break
+                before = len(wld.hist)
+                if not wld._any_ready():
+                    nxt = wld._peek_next()
+                    if nxt is None:
+                        break
+                    if nxt > wld.now + window_us and not any(
+                            node.alive and node.stall_until > wld.now and node.has_ready(node.stall_until) for node in wld.nodes.values()):
+                        # only timers beyond the window are left (a node that is merely busy is waited for)
+                        break
                 wld.step()
+                # the agent busy-polls a full socket (EAGAIN on every idle callback): that is quiescent
+                # for the purposes of a scripted peer, which reads only between settles
+                new = wld.hist[before:]
+                if new:
+                    spin = spin + 1 if all(evt[3] == 'tcp-eagain' for evt in new) else 0
+                    if spin >= 10:
+                        break
         except CallbackHang:
             self.hang = True
             wld.cur = None
             wld.log('callback-hang')
         self.drain_victim_output()
+
+    def settle_all(self, max_rounds=400, **kwargs):
+        ''' Settle, read what the victim wrote, and repeat until it writes nothing more (a victim that was blocked by a full
+        socket buffer continues once the peer has read). '''
+        for _ in range(max_rounds):
+            before = self.from_v.total
+            self.settle(**kwargs)
+            if self.from_v.total == before or self.hang or self.wld.capped:
+                break
 
     def advance(self, delta_us):
         ''' Let simulated time pass (timers may fire). '''
